@@ -33,11 +33,12 @@ use std::time::Duration;
 pub const DEF: PropDef = PropDef {
     id: "C18",
     level: "exploration",
-    rule: "cases = (positive program of <=2 rules from a 24-rule core: 1-2 premises, constants, repeated variables, variable predicates, two conclusions, non-recursive / linear / doubly / mutually recursive) x (fact set of <=4 triples of a 10-triple universe, plus p-chains of 5/6/8 edges for deep derivations) x (every goal shape over {constants a,c,p,q; variable slots} incl. repeated variable, variable predicate and ground goals: 37 shapes) x (namings of the slots from {x,X,Y,v0,v1,v2}). quick: 24 single rules + 42 ordered pairs of a 7-rule sub-core, each with every fact set of <=2 triples + 14 curated sets of 3-4, namings with the plain names in fixed order (4/13/34 per 1/2/3 slots, 235 goals per batch). thorough: single rules x every fact set of <=4 and the 30 ordered pairs of a 6-rule sub-core x every fact set of <=3 (+curated 4-sets), both with every injective naming (6/30/120, 512 goals per batch); the other 522 ordered pairs x fact sets of <=2 (+curated) with the fixed-plain-order namings. Each goal is run through Reasoner::backward_chaining and read back with resolve_term on the goal's terms; oracle = naive least model with stages: every answer is a ground model fact, every matching model fact of stage<=5 is answered, the answer set is the same for every naming of one shape. Goal shapes whose predicted SLD cost exceeds the step cap are skipped (counted under skipped_*, never judged). evaluations = goals executed; non-trivial = (program, fact set) pair for which some executed goal must return a derived fact; distinct = distinct such pairs; outcomes = distinct answer sets",
+    rule: "cases = (positive program of <=2 rules from a 24-rule core: 1-2 premises, constants, repeated variables, variable predicates, two conclusions, non-recursive / linear / doubly / mutually recursive) x (fact set of <=4 triples of a 10-triple universe, plus p-chains of 5/6/8 edges for deep derivations) x (every goal shape over {constants a,c,p,q; variable slots} incl. repeated variable, variable predicate and ground goals: 37 shapes) x (namings of the slots from {x,X,Y,v0,v1,v2}). quick: 24 single rules + 42 ordered pairs of a 7-rule sub-core, each with every fact set of <=2 triples + 14 curated sets of 3-4, namings with the plain names in fixed order (4/13/34 per 1/2/3 slots, 235 goals per batch). thorough: single rules x every fact set of <=4 and the 30 ordered pairs of a 6-rule sub-core x every fact set of <=3 (+curated 4-sets), both with every injective naming (6/30/120, 512 goals per batch); the other 522 ordered pairs x fact sets of <=2 (+curated) with the fixed-plain-order namings. Each goal is run through Reasoner::backward_chaining and read back with resolve_term on the goal's terms; oracle = naive least model with stages: every answer is a ground model fact, every matching model fact of stage<=5 is answered, the answer set is the same for every naming of one shape. Goal shapes whose predicted SLD cost exceeds the step cap are skipped (counted under skipped_*, never judged). evaluations = goals executed; non-trivial = (program, fact set) pair for which some executed goal must return a derived fact; distinct = distinct such pairs; outcomes = distinct answer sets. FURTHER FAMILIES (all tiers): 'deep' = p-chains of 9/10/11 edges under right-linear recursion (programs [copy, right-linear] in both orders), 24 goal shapes over the chain ends {c0,c2} x {q} x {c9,c10,c11}, own step cap 60000 (cost is O(length^2), nothing is skipped), completeness demanded up to stage 9 (one level below the engine's own bound), stage 10/11 answers only checked for soundness, base + extended namings; 'names' = each of the 24 single rules x fact sets of <=1 (thorough <=2) + the 14 curated sets, every shape under the plain naming and the extended naming alphabet {y,z,r (names used inside the rules), v3, v10, v01} (fixed-order rule: y,z,r in that order, the engine-like ones in every arrangement) plus mixed pairs/triples with prefix-related or numerically equal names (v1/v10, v0/v01, v01/v1); 'shapes' = 17 programs outside the core (three premises incl. a variable predicate in the middle, ground conclusion, fully ground rule, ground + non-ground conclusions, a rule written with ?v10/?v3, three-rule programs incl. mutual recursion, and 7 programs with filters between two variables =/!= incl. inside a recursion) x fact sets of <=1 + curated (thorough: <=3 + curated 4-sets); 'quoted' = 5 rule sets with quoted-triple terms in the conclusion (incl. one that nests its own conclusions and two written with v<n> names) x 4 fact sets x 8 linear goal shapes with quoted triples (nested twice, in subject and object, variable predicate inside the quotation) x every injective naming of the <=4 slots over {x,X,Y,Z,v0,v1,v10}: judged only by panic-freedom and by identity of the answers (values of the goal's variables, resolved deeply) with those of the plain naming - no reference model is involved. Rules with filters are judged against the least model in which a rule instance whose filter fails derives nothing (what evaluate_filters does in every forward strategy); an unsound answer additionally gets the differential tag explained_by=filters_ignored iff it lies in the least model of the program with all filters deleted",
     assumptions: &[
         "universe: individuals a,b,c,d (chains: c0..c8), predicates p,q; goal constants {a,c} and {p,q} (chains: c0,c2 / c3,c5); goal variable names {x,X,Y,v0,v1,v2} (x is also a variable name used inside the rules)",
-        "only safe positive rules without filters are generated (the property quantifies over safe rule sets)",
-        "completeness is demanded for stage<=5 only (engine bound: depth<=MAX_DEPTH=10 with depth = rule nesting of the goal)",
+        "only safe positive rules are generated (the property quantifies over safe rule sets); filters only between two variables of the rule body with = / != (the one filter form whose meaning does not depend on the values: evaluate_filters compares two bound variables by dictionary id); negation is not generated (a least model presupposes a positive program)",
+        "completeness is demanded for stage<=5 only (engine bound: depth<=MAX_DEPTH=10 with depth = rule nesting of the goal); in the deep family for stage<=9: a fact of stage s needs goals at depths 0..=s and only depth>10 is cut, so stage 9 keeps one level of margin under every reading of 'depth' (counting rule applications, or counting goal levels including the fact lookup)",
+        "quoted family: only linear goals (no variable twice) - unify_terms has no occurs check and a goal repeating a variable across a quotation boundary overflows the stack of the process (observation, outside the statement); facts cannot contain quoted triples here (Triple is three dictionary ids), so answers arise only through rules whose conclusion carries the quotation; unbound engine-internal variables inside an answer are rendered as ?_ (their names are the engine's business), unbound goal variables by slot number",
         "reference model: reference/datalog_pos.rs (self-tested); cost model SldCost (names-apart copy of the search, step cap 600 quick / 800 thorough) only decides skipping, never a verdict; the subject is about 2 us per predicted step and its cost is doubly exponential in the depth bound for left/doubly recursive programs",
         "answers are compared as sets of ground triples (the engine returns duplicates and internal variables by design)",
     ],
@@ -972,6 +973,301 @@ fn run_batch(subject: &Subject, out: &mut ShardOut, rules: &[Rule], facts: &[Fac
     true
 }
 
+// ---------------------------------------------------------------------------------------------
+// family "quoted": goals and rules with quoted-triple terms (RDF-star). No reference model: judged
+// only by what the statement says about names - the answers must not depend on what the goal's
+// variables are called - and by panic-freedom. Crosses the QuotedTriple arms of unify_terms,
+// substitute_term, rename_term and first_free_variable_index::scan.
+// ---------------------------------------------------------------------------------------------
+#[derive(Clone, Debug, PartialEq, Eq)]
+enum QT {
+    C(String),
+    V(String),
+    Q(Box<[QT; 3]>),
+}
+type QAtom = [QT; 3];
+type QRule = (Vec<QAtom>, Vec<QAtom>); // conclusions, premises
+
+/// terms separated by white space; `<<` and `>>` are tokens of their own
+fn q_term(tok: &[&str], i: &mut usize) -> QT {
+    let t = tok[*i];
+    *i += 1;
+    if t == "<<" {
+        let a = q_term(tok, i);
+        let b = q_term(tok, i);
+        let c = q_term(tok, i);
+        assert_eq!(tok[*i], ">>", "quoted triple not closed");
+        *i += 1;
+        QT::Q(Box::new([a, b, c]))
+    } else if let Some(v) = t.strip_prefix('?') {
+        QT::V(v.to_string())
+    } else {
+        QT::C(t.to_string())
+    }
+}
+
+fn q_atom(s: &str) -> QAtom {
+    let tok: Vec<&str> = s.split_whitespace().collect();
+    let mut i = 0;
+    let a = [q_term(&tok, &mut i), q_term(&tok, &mut i), q_term(&tok, &mut i)];
+    assert!(i == tok.len(), "trailing tokens in {:?}", s);
+    a
+}
+
+fn q_rule(s: &str) -> QRule {
+    let (h, b) = s.split_once(":-").unwrap_or_else(|| panic!("rule needs ':-': {:?}", s));
+    (h.split(',').map(|a| q_atom(a.trim())).collect(), b.split(',').map(|a| q_atom(a.trim())).collect())
+}
+
+fn q_show(t: &QT) -> String {
+    match t {
+        QT::C(c) => c.clone(),
+        QT::V(v) => format!("?{}", v),
+        QT::Q(q) => format!("<< {} {} {} >>", q_show(&q[0]), q_show(&q[1]), q_show(&q[2])),
+    }
+}
+
+fn q_show_atom(a: &QAtom) -> String {
+    format!("{} {} {}", q_show(&a[0]), q_show(&a[1]), q_show(&a[2]))
+}
+
+/// variable names in first-occurrence order (depth first)
+fn q_vars(a: &QAtom) -> Vec<String> {
+    fn walk(t: &QT, out: &mut Vec<String>) {
+        match t {
+            QT::C(_) => {}
+            QT::V(v) => {
+                if !out.contains(v) {
+                    out.push(v.clone());
+                }
+            }
+            QT::Q(q) => q.iter().for_each(|x| walk(x, out)),
+        }
+    }
+    let mut out = Vec::new();
+    a.iter().for_each(|t| walk(t, &mut out));
+    out
+}
+
+fn q_rename(t: &QT, from: &[String], to: &[&str]) -> QT {
+    match t {
+        QT::C(c) => QT::C(c.clone()),
+        QT::V(v) => QT::V(from.iter().position(|n| n == v).map(|i| to[i].to_string()).unwrap_or_else(|| v.clone())),
+        QT::Q(q) => QT::Q(Box::new([q_rename(&q[0], from, to), q_rename(&q[1], from, to), q_rename(&q[2], from, to)])),
+    }
+}
+
+fn q_rename_atom(a: &QAtom, from: &[String], to: &[&str]) -> QAtom {
+    [q_rename(&a[0], from, to), q_rename(&a[1], from, to), q_rename(&a[2], from, to)]
+}
+
+const Q_RULES: [&[&str]; 5] = [
+    &["<< ?x p ?y >> q ?y :- ?x p ?y"],
+    &["?x q << ?x p ?y >> :- ?x p ?y"],
+    // second rule nests its own conclusions (bounded by the engine's depth limit)
+    &["<< ?x p ?y >> q ?y :- ?x p ?y", "<< ?s q ?o >> q ?o :- ?s q ?o"],
+    // written with engine-like variable names
+    &["<< ?v0 p ?v1 >> q ?v1 :- ?v0 p ?v1"],
+    &["<< ?v1 p ?v10 >> q << ?v10 p ?v1 >> :- ?v1 p ?v10"],
+];
+const Q_FACTS: [&[&str]; 4] = [&["a p b"], &["a p a"], &["a p b", "b p c"], &["a p b", "b p a", "c p b"]];
+/// goal shapes, slots written ?0 ?1 ... Only LINEAR goals (no variable twice): unify_terms has no occurs
+/// check, and a goal that repeats a variable across a quotation boundary (`?x q << ?X p ?x >>` against the
+/// conclusion `<< ?x p ?y >> q ?y`) makes the engine build a cyclic binding and overflow the stack - the
+/// worker process dies, which the statement of C18 does not speak about (observation in the report).
+const Q_GOALS: [&str; 8] = [
+    "<< ?0 p b >> q ?1",
+    "<< ?0 p ?1 >> q ?2",
+    "?0 q ?1",
+    "<< ?0 ?1 ?2 >> ?3 b",
+    "a q << a p ?0 >>",
+    "?0 q << ?1 p ?2 >>",
+    "<< << ?0 p ?1 >> q ?2 >> q ?3",
+    "<< ?0 p ?1 >> q << ?2 p ?3 >>",
+];
+/// the plain naming is x, X, Y, Z in slot order; then names the engine generates (v10: multi-digit)
+const Q_NAMES: [&str; 7] = ["x", "X", "Y", "Z", "v0", "v1", "v10"];
+
+/// every injective naming of k slots over Q_NAMES, the plain one first
+fn q_namings(k: usize) -> Vec<Vec<&'static str>> {
+    let mut out: Vec<Vec<&'static str>> = vec![vec![]];
+    for _ in 0..k {
+        let mut next = Vec::new();
+        for n in &out {
+            for name in Q_NAMES.iter() {
+                if !n.contains(name) {
+                    let mut n2 = n.clone();
+                    n2.push(*name);
+                    next.push(n2);
+                }
+            }
+        }
+        out = next;
+    }
+    out
+}
+
+fn q_to_term(t: &QT, enc: &mut dyn FnMut(&str) -> u32) -> Term {
+    match t {
+        QT::C(c) => Term::Constant(enc(c)),
+        QT::V(v) => Term::Variable(v.clone()),
+        QT::Q(q) => Term::QuotedTriple(Box::new((q_to_term(&q[0], enc), q_to_term(&q[1], enc), q_to_term(&q[2], enc)))),
+    }
+}
+
+/// answers of one goal: for every returned binding the values of the goal's variables in slot order,
+/// resolved through the binding and rendered deeply (unbound goal variables by slot number, unbound
+/// engine-internal variables as `?_`: their names are the engine's business)
+fn q_ask(rules: &[QRule], facts: &[Fact], goal: &QAtom) -> Result<BTreeSet<Vec<String>>, String> {
+    guarded(|| {
+        let mut r = Reasoner::new();
+        let mut names: HashMap<u32, String> = HashMap::new();
+        for f in facts {
+            r.add_abox_triple(&f[0], &f[1], &f[2]);
+        }
+        let dict = r.dictionary.clone();
+        let mut enc = |s: &str| -> u32 {
+            let i = dict.write().unwrap().encode(s);
+            names.insert(i, s.to_string());
+            i
+        };
+        for f in facts {
+            for s in f {
+                enc(s);
+            }
+        }
+        let mut pat = |a: &QAtom, enc: &mut dyn FnMut(&str) -> u32| (q_to_term(&a[0], enc), q_to_term(&a[1], enc), q_to_term(&a[2], enc));
+        for (concl, prem) in rules {
+            let premise = prem.iter().map(|a| pat(a, &mut enc)).collect();
+            let conclusion = concl.iter().map(|a| pat(a, &mut enc)).collect();
+            r.add_rule(shared::rule::Rule { premise, negative_premise: vec![], filters: vec![], conclusion });
+        }
+        let pattern = pat(goal, &mut enc);
+        let gvars = q_vars(goal);
+        let results = r.backward_chaining(&pattern);
+        fn deep(t: &Term, b: &HashMap<String, Term>, gvars: &[String], names: &HashMap<u32, String>) -> String {
+            match resolve_term(t, b) {
+                Term::Constant(c) => names.get(&c).cloned().unwrap_or_else(|| format!("<id {}>", c)),
+                Term::Variable(v) => match gvars.iter().position(|n| *n == v) {
+                    Some(i) => format!("?slot{}", i),
+                    None => "?_".to_string(),
+                },
+                Term::QuotedTriple(q) => format!("<< {} {} {} >>", deep(&q.0, b, gvars, names), deep(&q.1, b, gvars, names), deep(&q.2, b, gvars, names)),
+            }
+        }
+        results.iter().map(|b| gvars.iter().map(|v| deep(&Term::Variable(v.clone()), b, &gvars, &names)).collect()).collect()
+    })
+}
+
+fn q_case_json(rules: &[&str], facts: &[Fact], goal: &QAtom) -> Value {
+    json!({"family": "quoted", "rules": rules, "facts": facts.iter().map(dl::show_fact).collect::<Vec<_>>(), "goal": q_show_atom(goal)})
+}
+
+fn q_tags(goal: &QAtom) -> Vec<String> {
+    let names = q_vars(goal);
+    let mut tags = vec!["family=quoted".to_string(), "goal_has_quoted_triple_or_rule_has".to_string()];
+    tags.push(if names.iter().any(|n| engine_like(n)) { "goal_var_named_v<n>".to_string() } else { "goal_vars_plain".to_string() });
+    if goal.iter().any(|t| matches!(t, QT::Q(_))) {
+        tags.push("goal_quoted_triple".to_string());
+    }
+    tags
+}
+
+/// judge one named goal against the plain naming of the same shape; pushes failures
+fn q_judge(out: &mut ShardOut, rules_txt: &[&str], rules: &[QRule], facts: &[Fact], goal: &QAtom, obs: &Result<BTreeSet<Vec<String>>, String>, plain: Option<&Result<BTreeSet<Vec<String>>, String>>) {
+    let mut verdicts: Vec<(&str, String)> = Vec::new();
+    match obs {
+        Err(p) => verdicts.push(("panic", format!("backward_chaining panicked: {}", p))),
+        Ok(a) => {
+            if let Some(Ok(pa)) = plain {
+                if pa != a {
+                    verdicts.push(("renaming_changes_answers", format!("answers (values of the goal's variables in slot order) differ from those for the plain naming of the same goal: {:?} vs plain {:?}", a, pa)));
+                }
+            }
+        }
+    }
+    if verdicts.is_empty() {
+        return;
+    }
+    // determinism before verdict
+    let again = q_ask(rules, facts, goal);
+    if again != *obs {
+        out.machinery_errors.push(format!("C18 quoted observation not reproducible for {}: {:?} vs {:?}", q_case_json(rules_txt, facts, goal), obs, again));
+        return;
+    }
+    for (sym, detail) in verdicts {
+        out.fail(q_case_json(rules_txt, facts, goal), sym, detail, q_tags(goal));
+    }
+}
+
+fn run_quoted(ctx: &Ctx, out: &mut ShardOut, idx: &mut u64) {
+    for rules_txt in Q_RULES.iter() {
+        let rules: Vec<QRule> = rules_txt.iter().map(|r| q_rule(r)).collect();
+        for fs in Q_FACTS.iter() {
+            *idx += 1;
+            if !ctx.mine(*idx) {
+                continue;
+            }
+            let facts: Vec<Fact> = fs.iter().map(|f| dl::fact(f)).collect();
+            out.count("batches", 1);
+            out.count("batches_quoted", 1);
+            let mut nontrivial = false;
+            for g in Q_GOALS.iter() {
+                let shape = q_atom(g);
+                let slots = q_vars(&shape);
+                let mut plain: Option<Result<BTreeSet<Vec<String>>, String>> = None;
+                for (ni, naming) in q_namings(slots.len()).iter().enumerate() {
+                    let goal = q_rename_atom(&shape, &slots, naming);
+                    if let Some(p) = &ctx.progress {
+                        p.mark(&q_case_json(rules_txt, &facts, &goal).to_string());
+                    }
+                    let obs = q_ask(&rules, &facts, &goal);
+                    out.evaluations += 1;
+                    out.count("goals_quoted", 1);
+                    if let Ok(a) = &obs {
+                        out.outcome(a);
+                        if !a.is_empty() {
+                            out.count("goals_quoted_with_answers", 1);
+                            nontrivial = true;
+                            if a.iter().any(|row| row.iter().any(|v| v.starts_with("<<"))) {
+                                out.count("goals_quoted_binding_a_variable_to_a_quoted_triple", 1);
+                            }
+                        }
+                        if ni == 0 && !a.is_empty() && (*idx + g.len() as u64) % 7 == 0 {
+                            out.sample(json!({"case": q_case_json(rules_txt, &facts, &goal), "family": "quoted", "answers": a}));
+                        }
+                    }
+                    q_judge(out, rules_txt, &rules, &facts, &goal, &obs, plain.as_ref());
+                    if ni == 0 {
+                        plain = Some(obs);
+                    }
+                }
+            }
+            if nontrivial {
+                out.nontrivial(&*idx);
+            }
+        }
+    }
+}
+
+fn replay_quoted(case: &Value) -> ShardOut {
+    let mut out = ShardOut::default();
+    let strs = |k: &str| -> Vec<String> { case[k].as_array().map(|a| a.iter().filter_map(|v| v.as_str().map(|s| s.to_string())).collect()).unwrap_or_default() };
+    let rules_s = strs("rules");
+    let rules_txt: Vec<&str> = rules_s.iter().map(|s| s.as_str()).collect();
+    let rules: Vec<QRule> = rules_txt.iter().map(|r| q_rule(r)).collect();
+    let facts: Vec<Fact> = strs("facts").iter().map(|f| dl::fact(f)).collect();
+    let goal = q_atom(case["goal"].as_str().unwrap_or("?x q ?X"));
+    let slots = q_vars(&goal);
+    let plain_goal = q_rename_atom(&goal, &slots, &Q_NAMES[..slots.len().min(4)]);
+    let plain = q_ask(&rules, &facts, &plain_goal);
+    let obs = q_ask(&rules, &facts, &goal);
+    out.evaluations = 2;
+    // the plain naming itself is judged for panics only
+    q_judge(&mut out, &rules_txt, &rules, &facts, &goal, &obs, if plain_goal == goal { None } else { Some(&plain) });
+    out
+}
+
 fn chain_facts(n: usize) -> Vec<Fact> {
     (0..n).map(|i| [format!("c{}", i), "p".to_string(), format!("c{}", i + 1)]).collect()
 }
@@ -1051,7 +1347,7 @@ fn run(ctx: &Ctx) -> ShardOut {
     let names_fs = names_fact_sets(thorough);
     let shapes_fs = shapes_fact_sets(thorough);
     out.count("max_programs", (plan.len() + EXTRA_PROGRAMS.len()) as u64);
-    out.count("max_planned_batches", plan.iter().map(|p| p.fact_sets.len() as u64).sum::<u64>() + 12 + 6 + (CORE.len() * names_fs.len()) as u64 + (EXTRA_PROGRAMS.len() * shapes_fs.len()) as u64);
+    out.count("max_planned_batches", plan.iter().map(|p| p.fact_sets.len() as u64).sum::<u64>() + 12 + 6 + (Q_RULES.len() * Q_FACTS.len()) as u64 + (CORE.len() * names_fs.len()) as u64 + (EXTRA_PROGRAMS.len() * shapes_fs.len()) as u64);
     out.count("max_goal_shapes", shp.len() as u64);
     out.count("max_goals_per_batch", shp.iter().map(|s| namings(nslots(s), thorough).len() as u64).sum());
     out.count("max_goals_per_batch_with_extended_names", shp.iter().map(|s| namings_ext(nslots(s), false, true, true).len() as u64).sum());
@@ -1101,6 +1397,9 @@ fn run(ctx: &Ctx) -> ShardOut {
             }
         }
     }
+
+    // family "quoted": quoted-triple goals and rules, judged by renaming invariance and panic-freedom
+    run_quoted(ctx, &mut out, &mut idx);
 
     // family "names": every single rule of the core under the extended naming alphabet
     for pi in 0..CORE.len() {
@@ -1186,6 +1485,9 @@ fn note_skips(out: &mut ShardOut) {
 }
 
 fn replay(ctx: &Ctx, case: &Value) -> ShardOut {
+    if case["family"].as_str() == Some("quoted") {
+        return replay_quoted(case);
+    }
     let mut out = ShardOut::default();
     let strs = |k: &str| -> Vec<String> { case[k].as_array().map(|a| a.iter().filter_map(|v| v.as_str().map(|s| s.to_string())).collect()).unwrap_or_default() };
     let rules: Vec<Rule> = strs("rules").iter().map(|r| dl::rule(r)).collect();
